@@ -6,7 +6,8 @@ import os
 from . import common as C
 
 THEOREMS = {
-    "C12": ["ShipVerif.Ws.C12_write_vs_close", "ShipVerif.Ws.wsCfg_is_fixed", "ShipVerif.Ws.inv_run", "ShipVerif.Ws.C12_pinned_panics"],
+    "C12": ["ShipVerif.Ws.C12_write_vs_close", "ShipVerif.Ws.wsCfg_is_fixed", "ShipVerif.Ws.inv_run", "ShipVerif.Ws.C12_pinned_panics",
+            "ShipVerif.Ws.C12_write_waits", "ShipVerif.Ws.C12_timeout_case_drops"],
     "C13": ["ShipVerif.Ws.C13_transport_loss", "ShipVerif.Ws.C13_pumps_terminate", "ShipVerif.Ws.wsCfg_is_fixed", "ShipVerif.Ws.inv_run",
             "ShipVerif.Ws.C13_pinned_leaks_socket", "ShipVerif.Ws.C13_local_close_reported_before_fix",
             "ShipVerif.Ws.C13_no_late_delivery", "ShipVerif.Ws.inv2_run", "ShipVerif.Ws.C13_no_recheck_delivers_late"],
@@ -18,7 +19,7 @@ def check(pid, tier, seed):
     R.assumptions = [
         "Go primitives as stated in Model/Ws.lean (send on closed channel panics, capacity-1 channel, closed channel always ready in select, sync.Once, mutex sections atomic); the once body is one atomic step",
         "gorilla/websocket: ReadMessage returns an error once the socket is closed; WriteMessage fails on a closed or failing socket",
-        "the four design facts are read syntactically from ws/websocket.go",
+        "the seven design facts are read syntactically from ws/websocket.go",
         "C13 'no delivery after close' holds up to the one message whose read had completed before the close (stated in the theorem)",
     ]
     changed, err = C.regen_facts()
